@@ -128,12 +128,13 @@ struct Run {
     }
     // hook_up: the first co_await creates a signal of its own, suspends the coroutine on it and only then hands the
     // collector to the registration function - the very first emission must not be missed
-    std::optional<typename S::collector> hooked; bool hook_emit_in_reg = false;
+    std::optional<typename S::collector> hooked; bool hook_emit_in_reg = false; int hook_registrations = 0; bool hook_again = false; int hook_again_result = 0;
     cocls::async<void> hook_listener(LRec *pr) {
         LRec &r = *pr;
         // the registration function may emit at once through the collector it is handed (a generator that replays its
         // current value to a new subscriber): the listener is already waiting by then and must receive that value
         auto e = S::hook_up([this](typename S::collector c) {
+            hook_registrations++;
             hooked.emplace(std::move(c));
             if (hook_emit_in_reg) { if constexpr (VOID) (*hooked)(); else (*hooked)(int(898)); }
         });
@@ -141,14 +142,19 @@ struct Run {
             try {
                 if constexpr (VOID) { co_await e; r.got.push_back(-1); }
                 else { int &v = co_await e; r.got.push_back(v); }
-            } catch (const cocls::await_canceled_exception &) { r.cancelled = true; co_return; }
+            } catch (const cocls::await_canceled_exception &) { r.cancelled = true; break; }
         }
-        r.left = true;
+        if (!r.cancelled) { r.left = true; co_return; }
+        if (hook_again) {
+            // awaiting the disconnected emitter once more fails the same way, at once - it does not register again
+            hook_again_result = 1;
+            try { co_await e; hook_again_result = 2; } catch (const cocls::await_canceled_exception &) { hook_again_result = 3; }
+        }
     }
     void hook_episode(int want, int emit_n, bool emit_in_reg) {
         size_t id = L.size();
         L.emplace_back(); LRec &r = L[id]; r.want = want; r.active = false;      // not reached by the main signal's emissions
-        hook_emit_in_reg = emit_in_reg;
+        hook_emit_in_reg = emit_in_reg; hook_registrations = 0; hook_again = (emit_n & 1) == 0; hook_again_result = 0;
         if (emit_in_reg) { r.expect.push_back(VOID ? -1 : 898); if (want > 0) want--; }
         hook_listener(&r).detach();
         HZ_CHECK(hooked.has_value(), "hook_up did not call the registration function when the coroutine suspended on it");
@@ -159,6 +165,9 @@ struct Run {
         }
         hooked.reset();                                  // last handle: a listener still waiting is cancelled
         r.expect_cancel = want < 0 || emit_n < want;
+        if (r.expect_cancel && hook_again) HZ_CHECK(hook_again_result == 3, "a hook-up listener that was cancelled awaited its emitter again: %s (await_canceled_exception at once expected)", hook_again_result == 1 ? "it is suspended again" : hook_again_result == 2 ? "the await completed normally" : "it never got there");
+        HZ_CHECK(hook_registrations == 1, "the registration function of a hook-up was called %d times (exactly once expected)", hook_registrations);
+        hooked.reset();
         HZ_CHECK(r.left == !r.expect_cancel, "hook-up listener %s although it %s", r.left ? "left" : "did not leave", r.expect_cancel ? "was still waiting when the collector was dropped" : "had received everything it wanted");
     }
     void compare(const char *after) {
